@@ -18,6 +18,10 @@ SUB_CATALOGUE = [
     {"name": "vf_wide", "ret": "uint64_t", "params": ["uint32_t p"], "body": "{ uint64_t w = p; return w << 1; }"},
     {"name": "vf_sel", "ret": "int32_t", "params": ["int32_t c", "int32_t x"], "body": "{ int32_t r = 0; if (c) { r = x; } else { r = -x; } return r; }"},
     {"name": "vf_bad", "ret": "int32_t", "params": ["int32_t c"], "body": "{ while (c) { c = c - 1; } return c; }"},
+    # rejected while a call of the same expression is still pending
+    {"name": "vf_bad2", "ret": "uint32_t", "params": ["uint32_t x"], "body": "{ return clz32(x) + vf_no_such_function(x); }"},
+    # calls a routine that was registered at run time (on whatever instance)
+    {"name": "vf_outer", "ret": "int32_t", "params": ["int32_t a"], "body": "{ return vf_add3(a, 1) + 1; }", "needs": ["vf_add3"]},
     # bodies that access memory: a caller's attributes are those of its own text, whatever its callee does
     {"name": "vf_st", "ret": "void", "params": ["uint32_t addr", "int32_t v"], "body": "{ EA = addr; mem_store_u32(EA, v); }"},
     {"name": "vf_ldx", "ret": "int32_t", "params": ["uint32_t addr"], "body": "{ EA = addr; int32_t x = mem_load_s32(EA); return x; }"},
@@ -34,6 +38,8 @@ SUB_CALLERS = {
     "vf_wide": ["{ RddV = vf_wide(RsV); }"],
     "vf_sel": ["{ RdV = vf_sel(PuV, RsV); }"],
     "vf_bad": ["{ RdV = vf_bad(RsV); }"],           # its registration always raises: the call must stay rejected
+    "vf_bad2": ["{ RdV = vf_bad2(RsV); }", "{ RdV = clz32(RsV); }"],
+    "vf_outer": ["{ RdV = vf_outer(RsV); }", "{ RdV = vf_outer(RsV) + vf_add3(RtV, 2); }"],
     "vf_st": ["{ vf_st(RsV, RtV); }", "{ if (PuV) { vf_st(RsV, 1); } }"],
     "vf_ldx": ["{ RdV = vf_ldx(RsV); }", "{ RdV = vf_ldx(RsV) + vf_ldx(RtV); }"],
 }
